@@ -1,7 +1,7 @@
 /* C14 --- myth_once: init routine runs exactly once; nobody returns before it completed; later calls do nothing. */
 #include "hcommon.h"
-enum { I_PLAIN, I_YIELD, I_MUTEX, I_CREATE };
-static const char * const i_name[] = { "plain", "yields", "blocks on a mutex held by a bystander", "creates and joins a thread" };
+enum { I_PLAIN, I_YIELD, I_MUTEX, I_CREATE, I_NESTED };
+static const char * const i_name[] = { "plain", "yields", "blocks on a mutex held by a bystander", "creates and joins a thread", "calls myth_once on a second control whose (yielding) init routine is in progress in another thread" };
 typedef struct { int callers, init, main_calls, W, K; } prog_t;
 #define MAXP 128
 static prog_t P[2][MAXP]; static int NP[2];
@@ -13,6 +13,8 @@ static void build(void) {
     if (tier && c == 2 && in >= 2 && W == 2) K = 2;
     add(tier, c, in, mc, W, K);
   }
+  /* nested use of two controls: the init routine of one control calls myth_once on another one that is in progress elsewhere */
+  for (int tier = 0; tier < 2; tier++) for (int W = 1; W <= 2; W++) for (int c = 1; c <= 2; c++) for (int mc = 0; mc < 2; mc++) add(tier, c, I_NESTED, mc, W, tier ? 2 : (c == 1 ? 2 : 1));
 }
 static int nprogs(int tier) { build(); return NP[tier]; }
 static void config(int tier, int prog, int * W, int * K) { build(); *W = P[tier][prog].W; *K = P[tier][prog].K; }
@@ -20,6 +22,9 @@ static void describe(int tier, int prog, char * b, size_t n) { build(); prog_t *
 static prog_t * cur; static myth_once_t once = { myth_once_state_init }; static myth_mutex_t gate;
 static volatile int inits, completed, returned;
 static void * noop(void * a) { return a; }
+static myth_once_t onceB = { myth_once_state_init }; static volatile int initsB, completedB;
+static void initB(void) { initsB++; MV_CHECK(initsB == 1, "init routine of the second control executed %d times", initsB); myth_yield(); myth_yield(); mv_point(&completedB, sizeof(int)); completedB = 1; }
+static void * callerB(void * a) { int r = myth_once(&onceB, initB); MV_CHECK(r == 0 && completedB == 1 && initsB == 1, "myth_once on the second control returned %d with its init routine %s (%d executions)", r, completedB ? "completed" : "not completed", initsB); return a; }
 static void init_routine(void) {
   inits++;
   MV_CHECK(inits == 1, "init routine executed %d times", inits);
@@ -27,6 +32,8 @@ static void init_routine(void) {
   case I_YIELD: myth_yield(); myth_yield(); break;
   case I_MUTEX: myth_mutex_lock(&gate); myth_mutex_unlock(&gate); break;
   case I_CREATE: { myth_thread_t t = myth_create(noop, 0); myth_join(t, 0); break; }
+  case I_NESTED: { int r = myth_once(&onceB, initB); MV_CHECK(r == 0, "nested myth_once returned %d", r);
+    MV_CHECK(completedB == 1 && initsB == 1, "myth_once called from inside another control's init routine returned before the init routine of its own control completed (executions %d)", initsB); break; }
   default: break;
   }
   mv_point(&completed, sizeof(int));
@@ -48,6 +55,7 @@ static void run(int tier, int prog) {
   myth_mutex_init(&gate, 0);
   myth_thread_t th[6]; int nt = 0;
   if (cur->init == I_MUTEX) th[nt++] = myth_create(gate_holder, 0);
+  if (cur->init == I_NESTED) th[nt++] = myth_create(callerB, 0);
   for (int i = 0; i < cur->callers; i++) th[nt++] = myth_create(caller, 0);
   if (cur->main_calls) caller(0);
   for (int i = 0; i < nt; i++) myth_join(th[i], 0);
